@@ -247,6 +247,24 @@ func (c *ExecCtx) execAssign(st *State, x *ast.AssignStmt) {
 			vals = append(vals, c.eval(st, r))
 		}
 	}
+	// lock := &x.locks[i]: remember what the pointer denotes
+	if len(x.Lhs) == 1 && len(x.Rhs) == 1 {
+		if ue, ok := ast.Unparen(x.Rhs[0]).(*ast.UnaryExpr); ok && ue.Op == token.AND {
+			if id, ok := x.Lhs[0].(*ast.Ident); ok {
+				if isLockType(derefType(c.typeOf(x.Rhs[0]))) {
+					if obj := c.info.ObjectOf(id); obj != nil {
+						k, idx, fk := c.lockKeyOf(st, ue.X)
+						na := map[types.Object]lockAliasT{}
+						for a, b := range st.lockAlias {
+							na[a] = b
+						}
+						na[obj] = lockAliasT{k, idx, fk}
+						st.lockAlias = na
+					}
+				}
+			}
+		}
+	}
 	for i, l := range x.Lhs {
 		if i >= len(vals) {
 			break
@@ -1255,4 +1273,15 @@ func allInvariant(ts []*Term, start int) bool {
 		}
 	}
 	return true
+}
+
+
+func isLockType(t types.Type) bool {
+	if n, ok := unalias(t).(*types.Named); ok && n.Obj() != nil && n.Obj().Pkg() != nil {
+		switch n.Obj().Pkg().Path() + "." + n.Obj().Name() {
+		case "sync.Mutex", "sync.RWMutex", modulePath + "/internal.CtxMutex":
+			return true
+		}
+	}
+	return false
 }
